@@ -998,3 +998,115 @@ Qed.
 Corollary bufio_ingest_eq_file size cs d cb : Forall (fun c => c <> []) cs ->
   bufio_ingest size cs d cb = (fst (ingest cs d cb), Some (snd (ingest cs d cb))).
 Proof. intros H. apply bufio_ingest_eq. exact (nonempty_progress_ok cs H). Qed.
+
+(* ---------- 4. io.ErrNoProgress ---------- *)
+
+Lemma empties_repeat n rest : empties (repeat [] n ++ rest) = n + empties rest.
+Proof. induction n as [|n IH]; [reflexivity|]. cbn [repeat app empties]. rewrite IH. reflexivity. Qed.
+
+Lemma skipn_repeat_app {A} (x : A) n rest : skipn n (repeat x n ++ rest) = rest.
+Proof. induction n as [|n IH]; [reflexivity|exact IH]. Qed.
+
+Lemma empties_prefix : forall n cs, n <= empties cs -> cs = repeat [] n ++ skipn n cs.
+Proof.
+  induction n as [|n IH]; intros cs H; [reflexivity|].
+  destruct cs as [|[|a c] r]; cbn [empties] in H; try lia.
+  cbn [repeat app skipn]. f_equal. apply IH. lia.
+Qed.
+
+(* what the contract theorem excludes is exactly a run of 100 empty chunks somewhere *)
+Theorem not_progress_ok_iff cs :
+  ~ progress_ok cs <-> exists pre rest, cs = pre ++ repeat [] max_consecutive_empty_reads ++ rest.
+Proof.
+  split.
+  - induction cs as [|c r IH]; intros H; [exfalso; apply H; exact I|].
+    destruct (Nat.lt_ge_cases (empties (c :: r)) max_consecutive_empty_reads) as [Hlt|Hge].
+    + destruct IH as (pre & rest & ->).
+      { intros Hr. apply H. split; assumption. }
+      exists (c :: pre), rest. reflexivity.
+    + exists [], (skipn max_consecutive_empty_reads (c :: r)). exact (empties_prefix _ _ Hge).
+  - intros (pre & rest & ->). induction pre as [|c pre IH]; intros H.
+    + apply progress_ok_head in H. cbn [app] in H. rewrite empties_repeat in H. lia.
+    + exact (IH (progress_ok_tl _ _ H)).
+Qed.
+
+(* ReadSlice when the script's next 100 reads are empty and there is room in the buffer *)
+Lemma read_slice_stall d b : bounds b -> rerr b = None -> ~ In d (bufd b) ->
+  buffered_n b < length (buf b) -> max_consecutive_empty_reads <= empties (chunks (rsrc b)) ->
+  exists b', read_slice d b = RSOk (bufd b) (Some ENoProgress) b' /\
+    bounds b' /\ bufd b' = [] /\ rerr b' = None /\ length (buf b') = length (buf b) /\
+    chunks (rsrc b') = skipn max_consecutive_empty_reads (chunks (rsrc b)) /\
+    last (rsrc b') = last (rsrc b) /\ ferr (rsrc b') = ferr (rsrc b).
+Proof.
+  intros Hb He Hnd Hroom Hem. unfold read_slice, read_slice_fuel.
+  replace (length (buf b) + 2) with (S (S (length (buf b)))) by lia.
+  assert (Hi : index_byte (skipn 0 (bufd b)) d = None) by (apply index_byte_not_in; exact Hnd).
+  destruct (fill_spec b Hb Hroom He) as (b1 & Hfill & _ & Hb1 & Hl1 & Hf1 & data & Hbd1 & _ & Hk).
+  rewrite (rs_fill _ d 0 b b1 Hb ltac:(lia) Hi He Hroom Hfill).
+  destruct Hk as [(_ & _ & Hlt & _)|[(_ & _ & Hlt)|(E1 & -> & _ & E4 & E5)]]; [lia|lia|].
+  rewrite app_nil_r in Hbd1.
+  assert (Hi1 : index_byte (skipn (buffered_n b) (bufd b1)) d = None).
+  { rewrite Hbd1, <- (bufd_length b Hb), skipn_all. reflexivity. }
+  assert (Hs1 : buffered_n b <= buffered_n b1).
+  { rewrite <- (bufd_length b1 Hb1), Hbd1, (bufd_length b Hb). lia. }
+  rewrite (rs_pending _ d (buffered_n b) b1 ENoProgress Hb1 Hs1 Hi1 E1).
+  destruct (drain_spec b1 Hb1) as (_ & _ & Hb3 & Hbd3).
+  eexists. split; [rewrite Hbd1; reflexivity|].
+  split; [exact Hb3|]. split; [exact Hbd3|]. split; [reflexivity|]. split; [exact Hl1|].
+  split; [exact E4|]. split; [exact E5|exact Hf1].
+Qed.
+
+(* The exact behaviour.  A reader with nothing pending, no delimiter among its buffered bytes,
+   whose script serves 100 empty reads next: ReadString returns the buffered bytes with
+   io.ErrNoProgress; exactly those 100 reads are consumed, the rest of the script is untouched,
+   the buffer is empty, no error stays pending; a later call carries on from there. *)
+Theorem bufio_no_progress d b rest : wf b -> rerr b = None -> ~ In d (bufd b) ->
+  chunks (rsrc b) = repeat [] max_consecutive_empty_reads ++ rest ->
+  exists b', read_string_b d b = RSOk (bufd b) (Some ENoProgress) b' /\
+    wf b' /\ bufd b' = [] /\ rerr b' = None /\ length (buf b') = length (buf b) /\
+    chunks (rsrc b') = rest /\ last (rsrc b') = last (rsrc b) /\ ferr (rsrc b') = ferr (rsrc b).
+Proof.
+  intros (Hb & Hef & Hne) He Hnd Hcs.
+  assert (Hem : max_consecutive_empty_reads <= empties (chunks (rsrc b))) by (rewrite Hcs, empties_repeat; lia).
+  assert (Hskip : skipn max_consecutive_empty_reads (chunks (rsrc b)) = rest) by (rewrite Hcs; apply skipn_repeat_app).
+  assert (Hfin : forall b', bounds b' -> bufd b' = [] -> rerr b' = None -> length (buf b') = length (buf b) ->
+            chunks (rsrc b') = skipn max_consecutive_empty_reads (chunks (rsrc b)) ->
+            last (rsrc b') = last (rsrc b) -> ferr (rsrc b') = ferr (rsrc b) ->
+            wf b' /\ bufd b' = [] /\ rerr b' = None /\ length (buf b') = length (buf b) /\
+            chunks (rsrc b') = rest /\ last (rsrc b') = last (rsrc b) /\ ferr (rsrc b') = ferr (rsrc b)).
+  { intros b' H1 H2 H3 H4 H5 H6 H7.
+    split; [split; [exact H1|split; [exact (err_final_none b' H3)|rewrite H7; exact Hne]]|].
+    split; [exact H2|]. split; [exact H3|]. split; [exact H4|]. split; [congruence|split; assumption]. }
+  unfold read_string_b, collect_fragments, collect_fuel.
+  destruct (Nat.le_gt_cases (length (buf b)) (buffered_n b)) as [Hfull|Hroom].
+  - (* the buffer is full: it is returned as a fragment first, then the empty reads are met *)
+    pose proof Hb as (_ & _ & Hc).
+    replace (S (buffered_n b + length (stream (rsrc b)))) with (S (S (buffered_n b - 1 + length (stream (rsrc b))))) by lia.
+    rewrite collect_loop_S. unfold read_slice at 1, read_slice_fuel.
+    replace (length (buf b) + 2) with (S (length (buf b) + 1)) by lia.
+    assert (Hi : index_byte (skipn 0 (bufd b)) d = None) by (apply index_byte_not_in; exact Hnd).
+    destruct (rs_full (length (buf b) + 1) d 0 b Hb ltac:(lia) Hi He Hfull) as [-> Hbuf].
+    destruct (drain_spec b Hb) as (Hb1 & Hbd1 & _ & _).
+    set (b1 := set_rpos b (wpos b)) in *.
+    destruct (read_slice_stall d b1 Hb1 He) as (b' & Hrun & H1 & H2 & H3 & H4 & H5 & H6 & H7).
+    { rewrite Hbd1. intros []. } { rewrite <- (bufd_length b1 Hb1), Hbd1. cbn. exact Hc. } { exact Hem. }
+    rewrite collect_loop_S, Hrun. exists b'.
+    split; [rewrite Hbd1, Hbuf; cbn [app concat]; rewrite !app_nil_r; reflexivity|].
+    apply Hfin; assumption.
+  - destruct (read_slice_stall d b Hb He Hnd Hroom Hem) as (b' & Hrun & H1 & H2 & H3 & H4 & H5 & H6 & H7).
+    rewrite collect_loop_S, Hrun. exists b'. split; [reflexivity|]. apply Hfin; assumption.
+Qed.
+
+(* conversely, with no assumption at all: io.ErrNoProgress comes back only from a script that
+   serves 100 empty reads in a row (or whose own final error is io.ErrNoProgress) *)
+Theorem bufio_no_progress_only d b out b' : wf b ->
+  read_string_b d b = RSOk out (Some ENoProgress) b' ->
+  ferr (rsrc b) = ENoProgress \/
+  exists pre rest, chunks (rsrc b) = pre ++ repeat [] max_consecutive_empty_reads ++ rest.
+Proof.
+  intros Hwf Hrun. destruct (read_string_b_spec d b Hwf) as (o & e & b2 & Hrun2 & _ & _ & _ & _ & Hcase).
+  rewrite Hrun in Hrun2. injection Hrun2 as <- <- <-.
+  destruct Hcase as (_ & _ & _ & [(E & _)|(_ & Hnp)]).
+  - left. symmetry. exact E.
+  - right. apply not_progress_ok_iff. exact Hnp.
+Qed.
